@@ -2060,10 +2060,12 @@ def iter_regexin_iter(regexiter: T.Iterable[str], initer: T.Iterable[object]) ->
 def _substitute_values_check_errors(command: T.Sequence[object], values: T.Dict[str, T.Union[str, T.List[str]]]) -> None:
     # Error checking
     inregex: T.List[str] = ['@INPUT([0-9]+)?@', '@PLAINNAME@', '@BASENAME@']
+    # @INPUT0@, @PLAINNAME0@, @BASENAME0@, ... exist once per input file
+    indexedregex = '@(INPUT|PLAINNAME|BASENAME)[0-9]+@'
     outregex: T.List[str] = ['@OUTPUT([0-9]+)?@', '@OUTDIR@']
     if '@INPUT@' not in values:
         # Error out if any input-derived templates are present in the command
-        match = iter_regexin_iter(inregex, command)
+        match = iter_regexin_iter(inregex + [indexedregex], command)
         if match:
             raise MesonException(f'Command cannot have {match!r}, since no input files were specified')
     else:
@@ -2077,7 +2079,7 @@ def _substitute_values_check_errors(command: T.Sequence[object], values: T.Dict[
         for each in command:
             if not isinstance(each, str):
                 continue
-            for match2 in re.finditer(inregex[0], each):
+            for match2 in re.finditer(f'{inregex[0]}|{indexedregex}', each):
                 if match2.group() not in values:
                     m = 'Command cannot have {!r} since there are only {!r} inputs'
                     raise MesonException(m.format(match2.group(), len(values['@INPUT@'])))
